@@ -43,6 +43,12 @@ def handle (line : String) : String :=
     match parsePrefix? tok with
     | some p => let k := cidrToKey p; s!"key={k.prefixLen}:{bytesToHex ((List.range 16).map fun i => (k.data / 2 ^ (8 * (15 - i))) % 256)}"
     | none => "bad-op"
+  | ["ptext", tok] =>
+    -- the generator's typed prefix is the meaning of the text it rendered; the real text parser must
+    -- produce exactly it
+    match parsePrefix? tok with
+    | some p => "pfx=" ++ prefixStr p
+    | none => "bad-op"
   | "canon" :: rest =>
     match rest.mapM parsePrefix? with
     | some ps => "canon=" ++ " ".intercalate ((canonicalize ps).map prefixStr)
